@@ -304,3 +304,6 @@ def _known_dummytable(sub, case, fail):
 
 
 KNOWN = {"dummytable-global-rng": _known_dummytable}
+
+# cases at scale (see pv/scale.py)
+RULE += scale.RULE
